@@ -2,10 +2,10 @@
 (* Every word sequence up to MaxWords over the control codes the reader acts  *)
 (* on (mode commands, erase, end of caption, carriage return, a preamble, a    *)
 (* tab offset, text), single or doubled as the sequence happens to have it,    *)
-(* with new lines 2 or 40 frames on: invariants of the control skeleton.       *)
+(* with new lines 0, 2 or 40 frames on: invariants of the control skeleton.       *)
 EXTENDS SccReader
-CONSTANTS MaxWords, EnmOnlyInPopOn
-VARIABLES st, nw, pending, erased
+CONSTANTS MaxWords, EnmOnlyInPopOn, LineKeepsLast
+VARIABLES st, nw, pending, erased, later
 
 Words == [w : {"9420"}, c : {"RCL"}] \cup [w : {"9429"}, c : {"RDC"}] \cup [w : {"9425"}, c : {"RU2"}]
          \cup [w : {"94ae"}, c : {"ENM"}] \cup [w : {"942f"}, c : {"EOC"}] \cup [w : {"94ad"}, c : {"CR"}]
@@ -13,7 +13,7 @@ Words == [w : {"9420"}, c : {"RCL"}] \cup [w : {"9429"}, c : {"RDC"}] \cup [w : 
 
 \* the first line is labelled one second (0 stands for "no time yet" in the code), and a stream
 \* opens with a mode command
-Init == st = Line(Init0, 30) /\ nw = 0 /\ pending = [m \in Modes |-> 0] /\ erased = [m \in Modes |-> 0]
+Init == st = Line(Init0, 30) /\ nw = 0 /\ pending = [m \in Modes |-> 0] /\ erased = [m \in Modes |-> 0] /\ later = FALSE
 \* mode discipline of a well-formed stream: End-Of-Caption belongs to pop-on, Carriage Return to
 \* roll-up; Erase-Non-displayed-Memory is a pop-on command too, but real streams send
 \* "94ae 94ae 9420 9420" while roll-up is still the active mode (EnmOnlyInPopOn = FALSE explores that)
@@ -34,12 +34,14 @@ Word == /\ nw < MaxWords
              /\ Allowed(x)
              /\ LET s2 == Step(st, x.w, x.c, 1, IF x.c = "CHARS" THEN FALSE ELSE st.empty[st.mode], 5).st IN
                 st' = s2 /\ Ghost(x, s2)
-        /\ nw' = nw + 1
+        /\ nw' = nw + 1 /\ later' = FALSE
 NewLine == /\ nw < MaxWords /\ st.frames > 0
-           /\ \E gap \in {2, 40} : st' = Line(st, Now(st) + gap)
+           /\ \E gap \in {0, 2, 40} :
+                /\ st' = IF LineKeepsLast THEN LineAsFound(st, Now(st) + gap) ELSE Line(st, Now(st) + gap)
+                /\ later' = (gap > 0)
            /\ UNCHANGED <<nw, pending, erased>>
 Next == Word \/ NewLine
-Spec == Init /\ [][Next]_<<st, nw, pending, erased>>
+Spec == Init /\ [][Next]_<<st, nw, pending, erased, later>>
 
 \* what read() returns if the stream ended here
 Final == End(st, 1, 5)
@@ -54,4 +56,7 @@ StartsInOrder == \A k \in 1..(Len(Final.stash) - 1) : Final.stash[k].s <= Final.
 OnlyLastBatchOpen == \A k \in 1..Len(Final.stash) : Final.stash[k].e = 0 => k > Len(Final.stash) - Final.still
 \* text sent in roll-up or paint-on mode is never thrown away (pop-on text is, by Erase-Non-displayed-Memory)
 NoRollOrPaintTextErased == erased["roll"] = 0 /\ erased["paint"] = 0
+\* a code is a repetition only in the frame after its first copy: the first word of a line that
+\* starts later than the previous one stopped is always executed, whatever it is
+LaterLineWordsAreExecuted == later => \A x \in Words : ~Doubled(st, x.w, x.c).skip
 =============================================================================
